@@ -11,7 +11,8 @@ THEOREMS = [NS + t for t in [
     "v1_C06_setter_spec", "v1_C06_get_set", "v1_C06_reject", "v1_C06_never_ub", "v1_C06_frame", "v1_C06_frame_derived",
     "v1_C06_getter_snapshot", "v1_C06_slot_getters_safe", "v1_C06_inv_write", "v1_C06_inv_set", "v1_C06_inv_db",
     "v1_C06_other_track", "v1_C06_db_get_set", "v1_C06_history", "v1_C06_history_getters",
-    "v1_C06_history_other_tracks", "v1_C06_absent_track", "v1_C06_remove_track", "v1_C06_spec_get_put",
+    "v1_C06_history_other_tracks", "v1_C06_absent_track", "v1_C06_remove_track", "v1_C06_table_ok",
+    "v1_C06_unique_path", "v1_C06_spec_get_put",
     "v1_C06_spec_frame"]]
 ASSUMPTIONS = [
     "1.x: setters are modelled on the rows of one track (every statement they issue has WHERE id = ?); the only "
@@ -24,12 +25,13 @@ ASSUMPTIONS = [
     "stricter than the snapshot path (offset -1.0 slots, tracks without PerformanceData row) and throw there",
 ]
 MANIFEST_TEXT = (
-    "1.x: 20 theorems (Properties/C06V1.lean) over the statement-level Lean model of the 26 getters / setters of "
+    "1.x: 22 theorems (Properties/C06V1.lean) over the statement-level Lean model of the 26 getters / setters of "
     "engine_track_impl.cpp: every setter that returns normally refines the Spec lens (v1_C06_setter_spec: snapshot after = "
     "putField of the normalised value, other 24 fields and 7 slots unchanged), get-after-set = Spec.normField, "
     "Spec-rejected values throw, no setter has undefined behaviour, frame for every ordered pair of independent fields and "
     "for filename/extension, getter = snapshot field on every state in the invariant Inv, Inv established by "
-    "create_track/update and kept by every setter, other tracks untouched, removed tracks (every setter throws), lifted "
+    "create_track/update and kept by every setter, other tracks untouched, removed tracks (every setter throws), primary key / UNIQUE(path) / Inv kept by every "
+    "modelled call (v1_C06_table_ok), lifted "
     "to arbitrary finite setter histories over any number of tracks by induction (v1_C06_history: snapshot after = "
     "Spec.replay of the successful calls); tied by generated histories over 3 tracks (missing PerformanceData row, "
     "default grid != adjusted grid, a track removed mid-history) with is_valid, all getters and snapshots observed "
